@@ -93,6 +93,8 @@ class HyperedgeShiftSegment : public ShiftSegment
             m_next_pos_lower = minSpaceLimit;
             m_next_pos_upper = maxSpaceLimit;
             m_balance_count = 0;
+            double terminalLower = -CHANNEL_MAX * 2;
+            double terminalUpper = CHANNEL_MAX * 2;
             if ( isImmovable )
             {
                 m_balance_count_set = true;
@@ -110,20 +112,40 @@ class HyperedgeShiftSegment : public ShiftSegment
                     const Point& otherPoint = node->point;
                     if (currPoint[altDim] == otherPoint[altDim])
                     {
+                        // A junction must not be moved onto the terminal
+                        // at the other end of one of its connectors.
+                        bool ontoTerminal = (*curr)->junction &&
+                                (node->edges.size() == 1) && !node->junction;
                         if (otherPoint[dimension] < currPoint[dimension])
                         {
                             m_next_pos_lower = std::max(m_next_pos_lower,
                                     otherPoint[dimension]);
                             --m_balance_count;
+                            if (ontoTerminal)
+                            {
+                                terminalLower = std::max(terminalLower,
+                                        otherPoint[dimension]);
+                            }
                         }
                         else if (otherPoint[dimension] > currPoint[dimension])
                         {
                             m_next_pos_upper = std::min(m_next_pos_upper,
                                     otherPoint[dimension]);
                             ++m_balance_count;
+                            if (ontoTerminal)
+                            {
+                                terminalUpper = std::min(terminalUpper,
+                                        otherPoint[dimension]);
+                            }
                         }
                     }
                 }
+            }
+            if (((m_balance_count < 0) && (terminalLower == m_next_pos_lower)) ||
+                ((m_balance_count > 0) && (terminalUpper == m_next_pos_upper)))
+            {
+                // The next position would collapse a whole connector.
+                m_balance_count = 0;
             }
             m_balance_count_set = true;
         }
@@ -483,8 +505,17 @@ void HyperedgeImprover::removeZeroLengthEdges(HyperedgeTreeNode *self,
                 }
                 else if ( ! other->junction && self->junction)
                 {
-                    target = self;
-                    source = other;
+                    if (other->edges.size() > 1)
+                    {
+                        target = self;
+                        source = other;
+                    }
+                    // Otherwise 'other' is the terminal at the end of
+                    // edge->conn and the junction has been moved onto it:
+                    // this zero length edge is all that is left of that
+                    // connector.  Keep it, so the connector stays part
+                    // of the hyperedge tree and still gets its route and
+                    // its junction end written back.
                 }
                 else if ( ! other->junction && ! self->junction)
                 {
@@ -1061,9 +1092,11 @@ HyperedgeTreeNode *HyperedgeImprover::moveJunctionAlongCommonEdge(
         commonEdges.clear();
         otherEdges.clear();
 
-        if (currNode->junction)
+        if (currNode->junction || (currNode->edges.size() == 1))
         {
-            // Don't shift junctions onto other junctions.
+            // Don't shift junctions onto other junctions, or onto the
+            // terminal at the end of a connector (that connector would
+            // be left without any edge in the hyperedge tree).
             continue;
         }
         if (currEdge->hasFixedRoute)
@@ -1097,8 +1130,8 @@ HyperedgeTreeNode *HyperedgeImprover::moveJunctionAlongCommonEdge(
             if (otherNode->point == currNode->point)
             {
                 // A common edge can be at the same point, but can't have
-                // a junction at it.
-                if (otherNode->junction)
+                // a junction or the terminal of a connector at it.
+                if (otherNode->junction || (otherNode->edges.size() == 1))
                 {
                     otherEdges.push_back(otherEdge);
                 }
